@@ -221,4 +221,238 @@ theorem multiParse_perm {ds ds' : List Bytes} (hp : ds.Pairwise (fun a b => ¬ O
     obtain ⟨d, hd, hm⟩ := firstMatch_some hf
     rw [firstMatch_eq_of_mem hp' (hperm.symm.subset hd) hm]
 
+/-! ## a host outside the base domains: the port of the `Host` value is no part of the bucket -/
+
+/-- `host` is not base domain `d` and not a sub-domain of it, ASCII case ignored -/
+def Outside (d host : Bytes) : Prop :=
+  toAsciiLower host ≠ toAsciiLower d ∧ ¬ (dot :: toAsciiLower d) <:+ toAsciiLower host
+
+/-- a host name: labels of ASCII letters, digits and `-`, none empty, separated by `.` -/
+def HostName (h : Bytes) : Prop := (splitAll dot h).all labelOk = true
+
+/-- a decimal port: one or more ASCII digits, value at most 65535 -/
+def DecimalPort (p : Bytes) : Prop := p ≠ [] ∧ p.all isDigit = true ∧ decVal p ≤ 65535
+
+instance (d host : Bytes) : Decidable (Outside d host) := by unfold Outside; infer_instance
+instance (h : Bytes) : Decidable (HostName h) := by unfold HostName; infer_instance
+instance (p : Bytes) : Decidable (DecimalPort p) := by unfold DecimalPort; infer_instance
+
+theorem splitOnce_append {c : UInt8} {h : Bytes} (hc : c ∉ h) (r : Bytes) :
+    splitOnce c (h ++ c :: r) = some (h, r) := by
+  induction h with
+  | nil => simp [splitOnce]
+  | cons x xs ih =>
+    have hx : x ≠ c := fun e => hc (by simp [e])
+    have hxs : c ∉ xs := fun e => hc (by simp [e])
+    simp [splitOnce, hx, ih hxs]
+
+theorem splitOnce_none {c : UInt8} {h : Bytes} (hc : c ∉ h) : splitOnce c h = none := by
+  induction h with
+  | nil => rfl
+  | cons x xs ih =>
+    have hx : x ≠ c := fun e => hc (by simp [e])
+    have hxs : c ∉ xs := fun e => hc (by simp [e])
+    simp [splitOnce, hx, ih hxs]
+
+/-- every byte of a text is the separator or lies in one of the parts -/
+theorem mem_splitAll (c : UInt8) (h : Bytes) : ∀ x ∈ h, x = c ∨ ∃ p ∈ splitAll c h, x ∈ p := by
+  induction h with
+  | nil => intro x hx; cases hx
+  | cons y r ih =>
+    intro x hx
+    unfold splitAll
+    by_cases hy : y = c
+    · rw [if_pos hy]
+      rcases List.mem_cons.mp hx with rfl | hx
+      · exact Or.inl hy
+      · rcases ih x hx with h1 | ⟨p, hp, hxp⟩
+        · exact Or.inl h1
+        · exact Or.inr ⟨p, List.mem_cons_of_mem _ hp, hxp⟩
+    · rw [if_neg hy]
+      rcases List.mem_cons.mp hx with rfl | hx
+      · right
+        cases hs : splitAll c r with
+        | nil => exact ⟨[x], by simp, by simp⟩
+        | cons q qs => exact ⟨x :: q, by simp, by simp⟩
+      · rcases ih x hx with h1 | ⟨p, hp, hxp⟩
+        · exact Or.inl h1
+        · right
+          cases hs : splitAll c r with
+          | nil => rw [hs] at hp; cases hp
+          | cons q qs =>
+            rw [hs] at hp
+            rcases List.mem_cons.mp hp with rfl | hp
+            · exact ⟨y :: p, by simp, by simp [hxp]⟩
+            · exact ⟨p, by simp [hp], hxp⟩
+
+/-- a host name holds no `:` -/
+theorem HostName.no_colon {h : Bytes} (hn : HostName h) : colon ∉ h := by
+  intro hc
+  rcases mem_splitAll dot h colon hc with h1 | ⟨p, hp, hcp⟩
+  · exact absurd h1 (by decide)
+  · have h2 := List.all_eq_true.mp hn p hp
+    unfold labelOk at h2
+    rw [Bool.and_eq_true] at h2
+    have h3 := List.all_eq_true.mp h2.2 colon hcp
+    exact absurd h3 (by decide)
+
+theorem HostName.ne_nil {h : Bytes} (hn : HostName h) : h ≠ [] := by
+  rintro rfl
+  exact absurd hn (by decide)
+
+/-- `name:port` is a valid domain for `is_valid_domain` -/
+theorem isValidDomain_name_port {h p : Bytes} (hn : HostName h) (hp : DecimalPort p) :
+    isValidDomain (h ++ colon :: p) = true := by
+  obtain ⟨hp0, hpd, hpv⟩ := hp
+  unfold isValidDomain
+  rw [splitOnce_append hn.no_colon]
+  have hu : parseU16Ok p = true := by
+    cases p with
+    | nil => exact absurd rfl hp0
+    | cons c r =>
+      have hc : c ≠ 43 := by
+        intro e
+        have := List.all_eq_true.mp hpd c (by simp)
+        rw [e] at this
+        exact absurd this (by decide)
+      simp only [parseU16Ok, if_neg hc, hpd, List.isEmpty_cons, Bool.not_false, Bool.true_and,
+        decide_eq_true_eq]
+      exact hpv
+  have he : (h ++ colon :: p).isEmpty = false := by cases h <;> rfl
+  have hpe : p.isEmpty = false := by cases p with | nil => exact absurd rfl hp0 | cons _ _ => rfl
+  simp only [he, hpe, hpd, hu]
+  exact hn
+
+/-- a port-free host name is a valid domain too -/
+theorem isValidDomain_name {h : Bytes} (hn : HostName h) : isValidDomain h = true := by
+  unfold isValidDomain
+  rw [splitOnce_none hn.no_colon]
+  have he : h.isEmpty = false := by
+    cases h with | nil => exact absurd rfl hn.ne_nil | cons _ _ => rfl
+  simp only [he]
+  exact hn
+
+/-- `bucket_of_host("name:port")` is `name` in lower case — whatever stands after the first `:` -/
+theorem bucketOfHost_name_port {h : Bytes} (hc : colon ∉ h) (p : Bytes) :
+    bucketOfHost (h ++ colon :: p) = toAsciiLower h := by
+  simp [bucketOfHost, splitOnce_append hc]
+
+theorem bucketOfHost_name {h : Bytes} (hc : colon ∉ h) : bucketOfHost h = toAsciiLower h := by
+  simp [bucketOfHost, splitOnce_none hc]
+
+/-- the bucket derived from a host never holds a `:` -/
+theorem bucketOfHost_no_colon (host : Bytes) : colon ∉ bucketOfHost host := by
+  have hl : ∀ s : Bytes, colon ∉ s → colon ∉ toAsciiLower s := by
+    intro s hs hc
+    obtain ⟨c, hcs, he⟩ := List.mem_map.mp hc
+    by_cases hu : (65 ≤ c.toNat && c.toNat ≤ 90) = true
+    · rw [if_pos hu] at he
+      simp only [Bool.and_eq_true, decide_eq_true_eq] at hu
+      have h1 : (c + 32).toNat = 58 := by rw [he]; rfl
+      rw [UInt8.toNat_add] at h1
+      have h2 : (32 : UInt8).toNat = 32 := rfl
+      omega
+    · rw [if_neg hu] at he
+      exact hs (he ▸ hcs)
+  have hs : ∀ (s a b : Bytes), splitOnce colon s = some (a, b) → colon ∉ a := by
+    intro s
+    induction s with
+    | nil => intro a b h; cases h
+    | cons x r ih =>
+      intro a b h
+      unfold splitOnce at h
+      by_cases hx : x = colon
+      · rw [if_pos hx] at h; injection h with h; injection h with h1 _; rw [← h1]; simp
+      · rw [if_neg hx] at h
+        cases hr : splitOnce colon r with
+        | none => rw [hr] at h; cases h
+        | some ab =>
+          obtain ⟨a', b'⟩ := ab
+          rw [hr] at h; injection h with h; injection h with h1 _
+          rw [← h1]
+          intro hm
+          rcases List.mem_cons.mp hm with e | hm
+          · exact hx e.symm
+          · exact ih a' b' hr hm
+  have hn : ∀ s : Bytes, splitOnce colon s = none → colon ∉ s := by
+    intro s
+    induction s with
+    | nil => intro _ h; cases h
+    | cons x r ih =>
+      intro h
+      unfold splitOnce at h
+      by_cases hx : x = colon
+      · rw [if_pos hx] at h; cases h
+      · rw [if_neg hx] at h
+        cases hr : splitOnce colon r with
+        | some ab => rw [hr] at h; cases h
+        | none =>
+          intro hm
+          rcases List.mem_cons.mp hm with e | hm
+          · exact hx e.symm
+          · exact ih hr hm
+  unfold bucketOfHost
+  cases h : splitOnce colon host with
+  | none => exact hl _ (hn host h)
+  | some ab => obtain ⟨a, b⟩ := ab; exact hl _ (hs host a b h)
+
+/-- whatever `parse_host_header(d, host)` answers, the host is `d` or ends with `.d`, case ignored -/
+theorem member_of_parseHostHeader {d host : Bytes} {vh : VirtualHost}
+    (h : parseHostHeader d host = some vh) :
+    toAsciiLower host = toAsciiLower d ∨ (dot :: toAsciiLower d) <:+ toAsciiLower host := by
+  unfold parseHostHeader at h
+  by_cases he : eqIgnoreAsciiCase host d = true
+  · exact Or.inl ((eqIgnoreAsciiCase_iff _ _).mp he)
+  · rw [if_neg he] at h
+    right
+    cases hs : stripSuffixIgnoreAsciiCase host d with
+    | none => rw [hs] at h; simp at h
+    | some r =>
+      obtain ⟨t, rfl, ht⟩ := stripSuffixIgnoreAsciiCase_some hs
+      rw [hs] at h
+      simp only [Option.bind_some] at h
+      unfold stripSuffix at h
+      by_cases hd : ([dot] : Bytes).isSuffixOf r = true
+      · obtain ⟨r', hr'⟩ := List.isSuffixOf_iff_suffix.mp hd
+        rw [← hr', toAsciiLower_append, toAsciiLower_append, ht, List.append_assoc]
+        exact List.suffix_append _ _
+      · rw [if_neg hd] at h; simp at h
+
+/-- a host outside base domain `d` is not matched by it -/
+theorem parseHostHeader_none_of_outside {d host : Bytes} (ho : Outside d host) :
+    parseHostHeader d host = none := by
+  cases h : parseHostHeader d host with
+  | none => rfl
+  | some vh =>
+    rcases member_of_parseHostHeader h with h1 | h1
+    · exact absurd h1 ho.1
+    · exact absurd h1 ho.2
+
+/-- `SingleDomain`: `name:port` outside the base domain names the bucket `name` -/
+theorem singleParse_name_port {d h p : Bytes} (hn : HostName h) (hp : DecimalPort p)
+    (ho : Outside d (h ++ colon :: p)) :
+    singleParse d (h ++ colon :: p) = some ⟨h ++ colon :: p, some (toAsciiLower h)⟩ := by
+  simp [singleParse, parseHostHeader_none_of_outside ho, fallback, isValidDomain_name_port hn hp,
+    bucketOfHost_name_port hn.no_colon]
+
+/-- `MultiDomain`: `name:port` outside every base domain names the bucket `name` -/
+theorem multiParse_name_port {ds : List Bytes} {h p : Bytes} (hn : HostName h) (hp : DecimalPort p)
+    (ho : ∀ d ∈ ds, Outside d (h ++ colon :: p)) :
+    multiParse ds (h ++ colon :: p) = some ⟨h ++ colon :: p, some (toAsciiLower h)⟩ := by
+  have hf : firstMatch ds (h ++ colon :: p) = none :=
+    firstMatch_none.mpr fun d hd => parseHostHeader_none_of_outside (ho d hd)
+  simp [multiParse, hf, fallback, isValidDomain_name_port hn hp, bucketOfHost_name_port hn.no_colon]
+
+/-- the same host without a port names the same bucket -/
+theorem singleParse_name {d h : Bytes} (hn : HostName h) (ho : Outside d h) :
+    singleParse d h = some ⟨h, some (toAsciiLower h)⟩ := by
+  simp [singleParse, parseHostHeader_none_of_outside ho, fallback, isValidDomain_name hn,
+    bucketOfHost_name hn.no_colon]
+
+theorem multiParse_name {ds : List Bytes} {h : Bytes} (hn : HostName h) (ho : ∀ d ∈ ds, Outside d h) :
+    multiParse ds h = some ⟨h, some (toAsciiLower h)⟩ := by
+  have hf : firstMatch ds h = none :=
+    firstMatch_none.mpr fun d hd => parseHostHeader_none_of_outside (ho d hd)
+  simp [multiParse, hf, fallback, isValidDomain_name hn, bucketOfHost_name hn.no_colon]
+
 end S3V.Host
